@@ -14,7 +14,7 @@ from hypothesis import strategies as st
 from vlib.runner import Violation, hyp_run, shard_seed, crash_sig
 from vlib import cli, gen_prog
 
-CASE_CPU_LIMIT_S = 300       # the slowest legitimate case (a ROM-speed load under the pure Python simulator) takes well under a minute of CPU
+CASE_CPU_LIMIT_S = 150       # the slowest legitimate case (a ROM-speed load under the pure Python simulator) takes under 40 s of CPU
 
 PROPERTY = 'C12'
 RULE = ('Hypothesis draws binary content (random / zeros / 0xFF / alternating worst-case edges), length, ORG, START, STACK or '
